@@ -570,6 +570,8 @@ pub fn run(args: &Args) -> Report {
 
     // macro-derived clients against macro-derived endpoints
     crate::c04m::run(args, &mut report);
+    // Smile request bodies and negotiated response encodings
+    crate::c04s::run(&mut report);
     let _ = (DeserializeOwnedMarker, ());
     report.sample("path", json!({"endpoint": "pathParams", "fooBar": "a/b", "type": "%2F", "rid": "ri.a..b.c"}));
     report.sample("query", json!({"endpoint": "queryParams", "strs": ["&", "=", "&"], "strSet": ["", "#"]}));
